@@ -55,7 +55,10 @@ def main():
         script = []
         mood = rng.choice(['asc', 'desc', 'rnd', None, None]) if job.get('grow') else None
         for step in range(job['length']):
-            if rng.random() < 0.12:
+            if mood and rng.random() < 0.3:
+                # everything stored and then evicted: the next call finds nothing but ghosts, and loads its path only
+                script += ['commit', 'evictall', 'any']
+            elif rng.random() < 0.12:
                 # a burst of queries, each on a freshly swept cache (every node a ghost)
                 for _ in range(5):
                     script += ['evictall', 'query']
@@ -67,6 +70,8 @@ def main():
                 r = 0.0
             elif kind == 'query':
                 r = 0.99
+            elif kind == 'commit':
+                r = 0.25
             ev = dict(op='', k=0, v=0, lo=0, hi=0, xlo=False, xhi=False, path=[], res=['ok'], regs=[], rcs=[], sticky=[], proj=0)
             if r < 0.22:
                 # cache sweep; nothing is looked at afterwards (that would load the ghosts again)
@@ -97,7 +102,7 @@ def main():
                 events.append(ev)
                 continue
             if r < 0.32:
-                if rng.random() < 0.8:
+                if kind == 'commit' or rng.random() < 0.8:
                     ev['op'] = 'commit'
                     w = jar.commit()
                     ev['nwritten'] = len(w)
